@@ -21,3 +21,15 @@ def split_selfies(selfies: str):
               and implies(selfies.find("[") >= 0, left_idx >= selfies.find("[")
                           and yielded_concat() == selfies[selfies.find("["):left_idx]), tag="output-is-the-scanned-prefix")
     variant("while 0 <= left_idx < len(selfies)", len(selfies) - left_idx)
+
+
+@contract("selfies/utils/selfies_utils.py::len_selfies", props=["C14", "C13"])
+def len_selfies(selfies: str):
+    # total on every str; the mechanism the statement names (count('[') + count('.')), and the cases in which the
+    # bracket scanner of split_selfies is proved to yield nothing / something (its clauses no-bracket-no-symbols and
+    # items-concatenate-to-the-input) get the matching verdict here.  Equality with the NUMBER of yielded items on every
+    # well-formed string needs induction over the string and stays with the bounded run (C14:len).
+    ensures(isinstance(result, int) and 0 <= result and result <= 2 * len(selfies), tag="C14:len-is-a-count")
+    ensures(result == selfies.count("[") + selfies.count("."), tag="C14:len-counts-opening-brackets-and-dots")
+    ensures(iff(result == 0, selfies.find("[") == -1 and selfies.find(".") == -1), tag="C14:len-zero-iff-no-bracket-no-dot")
+    ensures(implies(selfies.find("[") >= 0, result >= 1), tag="C14:len-positive-when-split-yields")
